@@ -220,6 +220,25 @@ func (c *channel) markSent(msgID uint64, gen uint64) {
 	}
 }
 
+// unmarkSent records that a request was not sent after all; the sender reports
+// the failure. It returns false if the receiver has reported the failure of the
+// stream to the caller already.
+func (c *channel) unmarkSent(msgID uint64) bool {
+	c.responseMut.Lock()
+	defer c.responseMut.Unlock()
+	router, ok := c.responseRouters[msgID]
+	if !ok {
+		// one-way without send waiting, or already answered
+		return true
+	}
+	if router.gen == 0 {
+		return false
+	}
+	router.gen = 0
+	c.responseRouters[msgID] = router
+	return true
+}
+
 func (c *channel) deleteRouter(msgID uint64) {
 	c.responseMut.Lock()
 	defer c.responseMut.Unlock()
@@ -274,6 +293,10 @@ func (c *channel) sendMsg(req request) (err error) {
 		}
 	}()
 
+	// The reply (if any) will arrive on this stream. The request is marked before
+	// it is written: the stream may break, and the receiver may fail the calls
+	// pending on it, as soon as the write has happened.
+	c.markSent(req.msg.Metadata.MessageID, c.streamGen)
 	err = c.gorumsStream.SendMsg(req.msg)
 	if err != nil {
 		c.setLastErr(err)
@@ -283,9 +306,10 @@ func (c *channel) sendMsg(req request) (err error) {
 		// stream, so that the receiver notices the failure as well and the
 		// stream can be re-created.
 		cancelStream()
-	} else {
-		// the reply (if any) will arrive on this stream
-		c.markSent(req.msg.Metadata.MessageID, c.streamGen)
+		if !c.unmarkSent(req.msg.Metadata.MessageID) {
+			// the receiver has already failed this call with the stream
+			err = nil
+		}
 	}
 
 	close(done)
